@@ -122,6 +122,10 @@ def run_shard(shard, ctx):
         for types in itertools.product(("Plain", "Compressed"), repeat=2):
             for which in (0, 1):
                 run_case({"kind": "hdd", "types": list(types), "order": [0, 1], "sizes": [24, 17], "absolute": which}, ctx)
+        # a disk split over 300 storages (more image files than common handle-pool limits), used back to front
+        for typ in ("Plain", "Compressed"):
+            run_case({"kind": "hdd", "types": [typ] * 300, "order": list(range(300)), "sizes": [8 + j % 3 for j in range(300)],
+                      "many": True}, ctx)
         for r in (1, 2, 3):
             for types in itertools.product(("Plain", "Compressed"), repeat=r):
                 for order in itertools.permutations(range(r)):
@@ -207,7 +211,11 @@ def _finish(ctx, case, stream, reader, disk, bounds, buf, subject, closer, secto
             ctx.violation(case, {"subject": subject + ".sector_count", "kind": "mismatch"},
                           {"got": sector_count, "expected": size // 512})
             return
-        reqs, sreqs = _requests(bounds, size // 512, buf)
+        reqs, sreqs = _requests(bounds if not case.get("many") else [], size // 512, buf)
+        if case.get("many"):
+            # every storage boundary from the back to the front, then every storage's first sector from the front, then all
+            reqs = [(b * 512 - 512, 1024) for b in bounds[::-1]] + [(b * 512, 512) for b in bounds] + reqs
+            sreqs = [(b - 1, 2) for b in bounds[::-1]] + sreqs
         for a, c in sreqs:
             if any(a < b < a + c for b in bounds):
                 ctx.nontrivial += 1
